@@ -220,7 +220,7 @@ def obligations(tier):
                               code=['propka/ligand.py:assign_sybyl_type', 'propka/ligand.py:is_ring_member', 'propka/ligand.py:are_atoms_planar', 'propka/group.py:is_ligand_group_by_groups',
                                     'propka/protonate.py:Protonate.protonate_atom', 'propka/run.py:single', 'propka/output.py:get_*_section'],
                               bounds='ligand %s (%d atoms): every %s removed (%d structures)' % (name, n, 'single atom and every pair of atoms' if pairs else 'single atom', n * (n + 1) // 2 if pairs else n),
-                              claim_doc='no exception; all four output sections producible', max_paths=200000, shards=16 if pairs else 4, wall_s=170 if tier == 'quick' else 1500,
+                              claim_doc='no exception; all four output sections producible', max_paths=200000, split_input=('removed_first', 11 if pairs else 4), wall_s=170 if tier == 'quick' else 1500,
                               stop_on_violation=False))
     obs.append(Obligation('O2-whole-residues[pep8]', o_whole_residues, code=code, bounds='8-residue peptide: every proper subset of residues deleted (255 structures)',
                           claim_doc='no exception; remaining side-chain sites reported once', max_paths=100000, shards=8, stop_on_violation=False))
